@@ -322,28 +322,32 @@ func init() {
 				return "trigger-err"
 			}
 			interval = r.IterationDuration
-			trig = &api.Trigger{Trigger: api.NewIterationWorker(r.IterationDuration, wrap(r.Rate))}
+			rf := wrap(r.Rate)
+			trig = &api.Trigger{Trigger: api.NewIterationWorker(r.IterationDuration, rf), DryRun: rf}
 		case "staged":
 			r, err := staged.CalculateStagedRate(0, ms(p["freq"]), p["stages"], p["dist"], nil)
 			if err != nil {
 				return "trigger-err"
 			}
 			interval = r.IterationDuration
-			trig = &api.Trigger{Trigger: api.NewIterationWorker(r.IterationDuration, wrap(r.Rate)), Duration: r.Duration}
+			rf := wrap(r.Rate)
+			trig = &api.Trigger{Trigger: api.NewIterationWorker(r.IterationDuration, rf), Duration: r.Duration, DryRun: rf}
 		case "ramp":
 			r, err := ramp.CalculateRampRate(p["start"], p["end"], p["dist"], ms(p["rampdur"]), 0)
 			if err != nil {
 				return "trigger-err"
 			}
 			interval = r.IterationDuration
-			trig = &api.Trigger{Trigger: api.NewIterationWorker(r.IterationDuration, wrap(r.Rate))}
+			rf := wrap(r.Rate)
+			trig = &api.Trigger{Trigger: api.NewIterationWorker(r.IterationDuration, rf), DryRun: rf}
 		case "gaussian":
 			r, err := gaussian.CalculateGaussianRate(50000, 0, time.Minute, ms(p["freq"]), 30*time.Second, 10*time.Second, "", p["dist"])
 			if err != nil {
 				return "trigger-err"
 			}
 			interval = r.IterationDuration
-			trig = &api.Trigger{Trigger: api.NewIterationWorker(r.IterationDuration, wrap(r.Rate)), Duration: r.Duration}
+			rf := wrap(r.Rate)
+			trig = &api.Trigger{Trigger: api.NewIterationWorker(r.IterationDuration, rf), Duration: r.Duration, DryRun: rf}
 		case "users":
 			trig = &api.Trigger{Trigger: users.NewWorker(conc)}
 		case "file":
